@@ -52,10 +52,30 @@ def reset_globals():
     return dirty
 
 
+def leaf_signs(e):
+    """set of sf flags found on the operand itself and on every register / constant leaf below it."""
+    out = set()
+    if isinstance(e, exp):
+        out.add(bool(e.sf))
+    seen = set()
+    todo = [e]
+    while todo:
+        x = todo.pop()
+        if not isinstance(x, exp) or id(x) in seen:
+            continue
+        seen.add(id(x))
+        if isinstance(x, (cst, reg)):
+            out.add(bool(x.sf))
+        todo.extend(children(x))
+    return frozenset(out)
+
+
 def build(script, decl=None):
     """execute the script; returns the single resulting expression.
-    decl (list) receives, per sign-dependent instruction index, the (l.sf, r.sf) pair observed on the
-    operands just before the operator is applied (= what the user declared)."""
+    decl (list) receives, per binary instruction index, (k, l.sf, r.sf, signs) observed on the operand
+    objects just before the operator is applied (= what the user declared): `signs` is the set of sf flags
+    of the two operands and of all register/constant leaves below them — the declaration is unambiguous
+    iff that set has one element."""
     st = []
     for k, ins in enumerate(script):
         o = ins[0]
@@ -79,7 +99,7 @@ def build(script, decl=None):
             r = st.pop()
             l = st.pop()
             if decl is not None:
-                decl.append((k, bool(l.sf), bool(r.sf)))
+                decl.append((k, bool(l.sf), bool(r.sf), leaf_signs(l) | leaf_signs(r)))
             if o in BIN_PY:
                 st.append(BIN_PY[o](l, r))
             elif o in BIN_OPER:
@@ -138,7 +158,7 @@ def dump(e, smask=False):
     if t is ext or t is X.lab:
         return ["ext", e.ref, e.size, sf]
     if t is slc:
-        return ["slc", dump(e.x, smask), e.pos, e.size, sf, e.ref]
+        return ["slc", dump(e.x, smask), e.pos, e.size, sf, e.ref, 2 if e._is_ext else (1 if e._is_reg else 0)]
     if t is comp:
         parts = [[k[0], k[1], dump(v, smask)] for k, v in e.parts.items()]
         d = ["comp", e.size, sf, parts]
@@ -185,6 +205,65 @@ def comps_of(d, acc=None):
         for x in d:
             comps_of(x, acc)
     return acc
+
+
+def children(e):
+    t = type(e)
+    if t is slc:
+        return [e.x]
+    if t is comp:
+        return list(e.parts.values())
+    if t is tst:
+        return [e.tst, e.l, e.r]
+    if t is op:
+        return [e.l, e.r]
+    if t is uop:
+        return [e.r]
+    if t is vec or t is vecw:
+        return list(e.l)
+    if t is ptr:
+        return [e.base] + ([e.seg] if isinstance(e.seg, exp) else [])
+    if t is mem:
+        return [e.a] + [x for m in e.mods for x in m]
+    return []
+
+
+def has_sharing(e):
+    """does the object graph below e reach a non-leaf-constant node by two paths?  amoco's own helpers
+    (extend, rol, bitslice …) put one object at several places; in-place sf writes then hit all of them."""
+    seen = set()
+    todo = [e]
+    while todo:
+        x = todo.pop()
+        if not isinstance(x, exp):
+            continue
+        if id(x) in seen:
+            if x is not bit0 and x is not bit1:
+                return True
+            continue
+        seen.add(id(x))
+        todo.extend(children(x))
+    return False
+
+
+def strip_sf(d, root=True):
+    """dump with the sf flag of every non-root node blanked (comparison up to in-place sf writes on shared nodes)."""
+    if not isinstance(d, list) or not d or not isinstance(d[0], str):
+        return d
+    k = d[0]
+    pos = {"cst": 3, "reg": 3, "ext": 3, "slc": 4, "comp": 2, "tst": 5, "op": 5, "uop": 4, "top": 2, "vec": 3, "vecw": 3}.get(k)
+    out = []
+    for i, x in enumerate(d):
+        if i == pos and not root:
+            out.append(None)
+        elif isinstance(x, list):
+            if x and isinstance(x[0], str):
+                out.append(strip_sf(x, False))
+            else:
+                out.append([([y[0], y[1], strip_sf(y[2], False)] if (isinstance(y, list) and len(y) == 3 and isinstance(y[0], int)) else strip_sf(y, False)) for y in x])
+        else:
+            out.append(x)
+    return out
 
 
 def render(e):
@@ -236,7 +315,7 @@ def outcome(f, seconds=5.0):
     try:
         try:
             e = f()
-            res = ["ok", dump(e, smask=True), render(e), e.size if isinstance(e, exp) else None]
+            res = ["ok", dump(e, smask=True), render(e), e.size if isinstance(e, exp) else None, has_sharing(e)]
         finally:
             signal.setitimer(signal.ITIMER_REAL, 0)
     except ScriptError:
